@@ -136,6 +136,18 @@ class Opaque(object):
     return "<Opaque %s>" % self.desc
 
 
+class Mock(object):
+  """Synthetic object supplied by a rule (e.g. a Keras layer): attributes are
+  values; python callables are invoked as f(pe, args, kwargs)."""
+
+  def __init__(self, name, attrs=None):
+    self.name = name
+    self.attrs = dict(attrs or {})
+
+  def __repr__(self):
+    return "<Mock %s>" % self.name
+
+
 class BoundPrim(object):
   """A method of a tensor / list / dict value."""
 
@@ -314,6 +326,10 @@ class PE(object):
     g = self.module_globals(module)
     if name in g:
       return g[name]
+    if name in module.assigns and name not in module.imports:
+      # the top-level assignment could not be evaluated by the interpreter
+      self.err("module-level value %s.%s is not statically evaluable" %
+               (module.name, name))
     full = module.resolve(name)
     return self.value_of_dotted(full, name)
 
@@ -485,6 +501,9 @@ class PE(object):
 
   # -- attribute access --------------------------------------------------
   def setattr(self, obj, name, val):
+    if isinstance(obj, Mock):
+      obj.attrs[name] = val
+      return
     if isinstance(obj, Obj):
       # property setter?
       owner, fn = obj.cls.find_method(name + ".setter")
@@ -520,6 +539,11 @@ class PE(object):
         return ClassRef(obj.cls)
       raise PyRaise("AttributeError", "%s has no attribute %s" %
                     (obj.cls.name, name))
+    if isinstance(obj, Mock):
+      if name in obj.attrs:
+        return obj.attrs[name]
+      raise PyRaise("AttributeError", "%s has no attribute %s" %
+                    (obj.name, name))
     if isinstance(obj, SuperProxy):
       owner, fn = obj.obj.cls.find_method(name, after=obj.after)
       if fn is None:
@@ -767,7 +791,7 @@ class PE(object):
     for op, rn in zip(node.ops, node.comparators):
       right = self.eval(rn, frames, module)
       r = self.compare(op, left, right, node)
-      if isinstance(r, Tensor):
+      if isinstance(r, (Tensor, list)):
         if len(node.ops) != 1:
           self.err("chained tensor comparison", node)
         return r
@@ -777,6 +801,11 @@ class PE(object):
     return result
 
   def compare(self, op, a, b, node=None):
+    if isinstance(a, list) and not isinstance(b, (list, tuple, str)) and \
+        b is not None and any(isinstance(e, Tensor) for e in a) and \
+        isinstance(op, (ast.Lt, ast.LtE, ast.Gt, ast.GtE)):
+      # numpy-style broadcast of an array of symbolic entries
+      return [self.compare(op, e, b, node) for e in a]
     if isinstance(a, Tensor) or isinstance(b, Tensor):
       if isinstance(op, (ast.Is, ast.IsNot)):
         return isinstance(op, ast.IsNot) if (a is None or b is None) else \
@@ -855,6 +884,8 @@ class PE(object):
     if isinstance(v, (Obj, Func, ClassRef, Ext)):
       return True
     if isinstance(v, Opaque):
+      if v.desc == "match":
+        return True
       self.err("opaque value %s used as python condition" % v.desc, node)
     if isinstance(v, ShapeV):
       return bool(v.dims)
@@ -1064,6 +1095,9 @@ class PE(object):
         from . import gram
         return gram.method(self, fn.recv, fn.name, args, kwargs)
       return self.call_bound(fn, args, kwargs, node)
+    if callable(fn) and not isinstance(fn, (Func, ClassRef, Ext, BoundPrim,
+                                            Obj, Mock)):
+      return fn(self, args, kwargs)
     if isinstance(fn, Obj):
       owner, f = fn.cls.find_method("__call__")
       if f is None:
@@ -1309,7 +1343,7 @@ BUILTINS = {
     "all", "round", "set", "super", "object", "ValueError", "TypeError",
     "AttributeError", "AssertionError", "SyntaxError", "Exception", "cast",
     "NotImplementedError", "KeyError", "reversed", "map", "id", "setattr",
-    "issubclass", "divmod", "UnboundLocalError", "IndexError",
+    "issubclass", "divmod", "UnboundLocalError", "IndexError", "filter",
 }
 
 
